@@ -963,3 +963,14 @@ func poolPutter(f *ssa.Function) (*ssa.Global, int) {
 	}
 	return nil, 0
 }
+
+// methodOf: the method named name in the method set of t (nil when there is none; LookupMethod panics then).
+func methodOf(c *Ctx, t types.Type, name string) *ssa.Function {
+	ms := c.Prog.MethodSets.MethodSet(t)
+	for i := 0; i < ms.Len(); i++ {
+		if ms.At(i).Obj().Name() == name {
+			return c.Prog.MethodValue(ms.At(i))
+		}
+	}
+	return nil
+}
